@@ -61,6 +61,13 @@ class Atom:
         return self.true_set(), False
 
 
+class ExtAtom(Atom):
+    """a parent constraint lo..hi,... : when a further constraint is serially applied, the parent's extension marker is dropped
+    (X.680 46.8 / 50.x: extensibility comes from the last constraint only), so the reference treats it like Atom."""
+    def text(self):
+        return Atom.text(self) + ',...'
+
+
 class Bin:
     def __init__(self, op, a, b):
         self.op, self.a, self.b = op, a, b
@@ -230,6 +237,8 @@ def run(args):
             forms = [('plain', False, None, None)]
             if not big:
                 forms += [('ext', True, None, None), ('ext_add', True, Atom(5, 5), None), ('serial', False, None, Atom(0, 3)), ('serial_wide', False, None, Atom(-INF, INF)),
+                          # extensible parent: serial application drops the parent's marker (seed C09c)
+                          ('serial_extparent', False, None, ExtAtom(0, 3)), ('serial_extparent_wide', False, None, ExtAtom(0, 10)),
                           # parents made of two pieces with a gap: the applied constraint may straddle the gap and cut both pieces
                           ('serial_gap1', False, None, Bin('|', Atom(0, 1), Atom(3, INF))), ('serial_gap2', False, None, Bin('|', Atom(-INF, 0), Atom(2, 3)))]
             for fname, ext, add, parent in forms:
